@@ -237,7 +237,20 @@ func runC10(t *testing.T, c DamageCase) *kit.Result {
 				offs[n] = true
 			}
 		} else {
+			// long logs: the first and last few records and a random dozen
+			pick := map[int]bool{}
+			if len(starts) > 40 {
+				for i := 0; i < 4; i++ {
+					pick[i], pick[len(starts)-1-i] = true, true
+				}
+				for i := 0; i < 12; i++ {
+					pick[prng.Intn(len(starts))] = true
+				}
+			}
 			for i, s := range starts {
+				if len(pick) > 0 && !pick[i] {
+					continue
+				}
 				for d := -8; d <= 8; d++ {
 					if n := s + d; n >= 0 && n < size {
 						offs[n] = true
@@ -375,8 +388,18 @@ func TestC10(t *testing.T) {
 			ks := kit.GenKeySpace(r, kit.PickOf(r, 2, 4, 8))
 			o := kit.ProgOpts{Keys: ks, MinOps: 1, MaxOps: 14, Big: r.Bool(0.1), WTxn: 12, WBatch: 8, WFlush: 5}
 			c.Ops = kit.GenProgram(r, o)
-			// end with writes so that the newest file is not empty
-			tail := kit.GenProgram(r, kit.ProgOpts{Keys: ks, MinOps: 1, MaxOps: 4, WTxn: 8, WBatch: 8})
+			if r.Bool(0.03) {
+				// a long log: recovery's skip-ahead after damage (32 KB at a time)
+				// has room to run several times before the end of the file
+				var tag uint32 = 5000
+				for i, n := 0, r.Range(180, 330); i < n; i++ {
+					tag++
+					c.Ops = append(c.Ops, kit.Op{K: "put", Key: ks.Pick(r), Tag: tag, Len: r.Range(900, 1100)})
+				}
+			}
+			// end with writes so that the newest file is not empty (sometimes
+			// with an entry of several fragments)
+			tail := kit.GenProgram(r, kit.ProgOpts{Keys: ks, MinOps: 1, MaxOps: 4, WTxn: 8, WBatch: 8, Big: r.Bool(0.25)})
 			for i := range tail {
 				tail[i].Tag += 1000
 				for j := range tail[i].Sub {
